@@ -96,3 +96,36 @@ class Kinds(Command):
 
         vlog.LOG.append(("exit", self.result_name))
         return {k: plain(v) for k, v in kwargs.items() if k != "Metadata"}
+
+
+class OddError(Exception):
+    """An exception class of a plugin's own, derived directly from Exception."""
+
+
+def _raise(kind):
+    import csv
+
+    import numpy
+
+    if kind == "UnicodeDecodeError":
+        b"\xff".decode("utf-8")
+    if kind == "RecursionError":
+        def f(n):
+            return f(n + 1) + 1
+        f(0)
+    classes = {"csv.Error": csv.Error, "OddError": OddError, "MaskError": numpy.ma.MaskError, "UserWarning": UserWarning}
+    cls = classes.get(kind) or getattr(__import__("builtins"), kind)
+    raise cls("raised by a plugin command: %s" % kind)
+
+
+class Raiser(Command):
+    """A plugin command whose execute() fails with the exception class named by Kind."""
+
+    inputs = {"Kind": params.StringParameter(), "After": params.ResultParameter(required=False)}
+    output = params.Parameter()
+
+    def execute(self, **kwargs):
+        vlog.LOG.append(("enter", self.result_name))
+        if "After" in kwargs:
+            kwargs["After"].result
+        _raise(kwargs["Kind"])
